@@ -121,6 +121,12 @@ def check_c06(rr: dict, w, fkind: str) -> list[dict]:
             out.append(V("exception", f"injected_fault_swallowed/{fkind}", f"fault {fired[0]} fired but the call returned"))
         elif oc.get("exc") is not inj:
             out.append(V("exception", f"exception_replaced/{fkind}", f"caller got {oc.get('exc_type')}: {oc.get('exc_msg')!r}, injected {type(inj).__name__}"))
+    # ... also for failures the framework itself prescribes (config-borne kinds): the object that left the node is the
+    # object the caller gets
+    if not oc["ok"] and rr["exec_log"] and rr["exec_log"][-1].get("status") == "raised":
+        orig = rr["exec_log"][-1].get("exc_obj")
+        if orig is not None and oc.get("exc") is not orig:
+            out.append(V("exception", f"exception_object_replaced/{fkind}", f"node raised {type(orig).__name__}: {orig!s}; caller got {oc.get('exc_type')}: {oc.get('exc_msg')!r}"))
     # "the trace file is flushed and closed when the call returns"
     open_h = [h for h in rr["open_handles"] if h.endswith(".jsonl")]
     if open_h:
@@ -212,6 +218,14 @@ def check_c07(rr: dict, w, sc: dict, truth: list[dict] | None, fkind: str, tz: s
             v = tm.get(fld)
             if isinstance(v, (int, float)) and v < 0:
                 out.append(V("timing", f"negative_{fld}", f"SER {k}: {fld}={v}"))
+        # a timestamp "denotes the true instant": started_at was read before the node began, finished_at after it ended
+        if e is not None and "t_begin" in e:
+            ts0 = harness.parse_rfc3339(tm.get("started_at"))
+            ts1 = harness.parse_rfc3339(tm.get("finished_at"))
+            if ts0 is not None and ts0 > e["t_begin"] + 0.0006:
+                out.append(V("timestamp", "started_at_after_node_began", f"SER {k}: started_at={tm.get('started_at')} but the node began at clock {e['t_begin']}"))
+            if ts1 is not None and "t_end" in e and ts1 < e["t_end"] - 0.0006:
+                out.append(V("timestamp", "finished_at_before_node_ended", f"SER {k}: finished_at={tm.get('finished_at')} but the node ended at clock {e['t_end']}"))
         # stall fault: the duration must cover it
         stalls = [f for f in w.faults_fired if f["kind"] == "stall" and f["node"] == k and f["run"] == w.cur_run]
         if stalls and isinstance(tm.get("wall_ms"), (int, float)) and tm["wall_ms"] < 1000:
@@ -340,7 +354,8 @@ def _book(book: dict, space: str, content: str, digest: str, out: list, k: int) 
 def _same(a, b) -> bool:
     try:
         if isinstance(a, float) or isinstance(b, float):
-            return float(a) == float(b)
+            fa, fb = float(a), float(b)
+            return fa == fb or (fa != fa and fb != fb)
     except Exception:
         pass
     try:
